@@ -355,3 +355,28 @@ reg("C18", "c18", [("calls", "plain", 1)], "exploration",
                "outside the addressed blocks changes.",
     level_note="Trusts numpy.linalg for reference eigenvalues / singular values / pseudo-inverses.",
     design_ref="4/C18")
+
+reg("C19", "c19", [("blas_box", "plain", 4), ("lapack_box", "plain", 4), ("base_asan", "asan", 3), ("index_asan", "asan", 3), ("misc_asan", "asan", 2)],
+    "exploration",
+    rule="blas_box: around a generated valid call of one of the 34 BLAS wrappers (the C17 generator) the Cartesian box "
+         "{-2..2}x{-2..2} of two integer arguments (dimensions, increments, leading dimensions, offsets) times buffer length "
+         "{-1,0,+1}, plus 0 and -1, or values near 2^31 / 2^63 and co-factors that make 32-bit products wrap, every tuple "
+         "executed; lapack_box: the same for 62 call forms of 56 LAPACK wrappers incl. shortened pivot/tau/W/diagonal "
+         "vectors; base_asan: base.gemm/gemv/syrk/symv/axpy on dense/sparse operands of arbitrary, also mismatching, shapes "
+         "and typecodes, all flags, partial, extreme m/n/inc/offset values; index_asan: dense and sparse indexing, indexed "
+         "assignment, spmatrix(), size changes with indices and sizes in {-len-2..len+1, +-2^31, +-2^63, 2^62, 2^45}; "
+         "misc_asan: the misc_solvers kernels inside their contract (C08 generator). Non-trivial = tuple whose model class "
+         "is decided (must accept / must refuse), LAPACK tuple that is accepted or does not fit, accepted base/index call.",
+    assumptions=["vlib/spec_blas.py footprints (C17); LAPACK extents A(ld,cols), pivot/tau/W lengths from the docstrings",
+                 "LAPACK: only 'accepted => every addressed block fits' is judged (wrappers may be stricter than the footprint, e.g. orgqr)",
+                 "pivot vectors passed to getrs/sytrs/gbtrs/gttrs/getri are valid pivot sequences (contents of ipiv are outside the domain)",
+                 "misc_solvers kernels are called with vector lengths consistent with dims (they validate nothing by design)",
+                 "tuples whose extent does not fit in a C int are excluded by predicate (known finding blas-int-overflow) and counted",
+                 "OpenBLAS/LAPACK are not instrumented: inside them only the model, crashes and the contents of the arguments are observable"],
+    technique="exhaustive boundary boxes around generated calls with a footprint model as oracle; fuzzing of the compiled "
+              "extension under AddressSanitizer with crash attribution by journaling (Hypothesis)",
+    level_text="~3e5 (quick) / 1e7 (thorough) BLAS tuples and ~2e5 / 7e6 LAPACK tuples on decision boundaries and near 2^31, "
+               "all executed; 1.2e4/1.6e4/4e3 (quick) ASan-instrumented base / indexing / misc_solvers calls.",
+    level_note="The page-guard allocator sketched in the design was not built; out-of-bounds accesses inside OpenBLAS/LAPACK are "
+               "only visible through the model, crashes and modified neighbours inside the same argument.",
+    design_ref="4/C19")
